@@ -145,7 +145,22 @@ def report(pid, tier, seed, P, mod, gens, meta, errors, t_start, args, jobs):
     vacuous = [m for m in canaries if m["verdict"] == "unsat"]
     rc = 0
     lines = []
+    engine_witness = []
     if errors:
+        # the engine cannot read some function under contract (unsupported construct after an edit): no proof, no refutation from
+        # the verifier.  The native harness is still asked for a failing input (bounded stand-in, labelled as such).
+        pseudo = []
+        for g in errors:
+            ti = g["task_index"]
+            t = P.tasks[ti]
+            func = P.index.lookup(t.target).fq if getattr(t, "target", None) else "<lemma>"
+            pseudo.append(dict(task=t.name, func=func, name="engine-error", line=0, verdict="engine-error", model=None,
+                               expect="unsat", decisions=[], backend="-", stage="-", kind="engine", note=g["error"][:300]))
+        rr = run_replayer(pid, mod, pseudo, seed, tier) if pseudo else {}
+        for m in pseudo:
+            r = rr.get(obligation_key(m))
+            if r and r.get("found"):
+                engine_witness.append((m, r["replay"]))
         for g in errors:
             lines.append(f"ENGINE-ERROR property={pid} task={g.get('task', g['task_index'])}: {g['error']}")
         rc = 3
@@ -190,6 +205,11 @@ def report(pid, tier, seed, P, mod, gens, meta, errors, t_start, args, jobs):
         seen_v.add(k)
         lines.append(f"VIOLATION property={pid} replay={path}{suffix}")
         lines.append(f"  obligation {m['func']} :: {m['name']} (task {m['task']}, line {m['line']}): verdict {m['verdict']} by {m['backend']}")
+    for m, path in engine_witness:
+        lines.append(f"VIOLATION property={pid} replay={path}")
+        lines.append(f"  found by the native witness search (bounded) while the engine could not read {m['func']} (task {m['task']}): {m['note'][:160]}")
+    if engine_witness:
+        rc = 1
     if violations and rc == 0:
         rc = 1
     if undecided and rc == 0:
